@@ -449,6 +449,14 @@ def pairs(ctx):
     Sg = Sym(prog, g)
     clr = [(b, t) for b, t in g.calls() if (t.get("callee") or "").endswith("String::clear")]
     ok = len(clr) == 1 and any(tr is True and re.search(r" Eq c:0\)$", e) for (e, tr, gg) in Sg.bool_facts_at(clr[0][0]))
+    if len(clr) == 1 and not ok:
+        # `match *refcount { 0 => return, 1 => { *refcount = 0; text.clear() } n => *refcount = n - 1 }`: the text is cleared in the arm of the count 1, which stores 0
+        cb = clr[0][0]
+        one = any((tr == ("==", 1) or tr is True) and re.search(r"@Some\.0\.1$|\]\.1$", e) and " Eq " not in e and " Ne " not in e for (e, tr, gg) in Sg.bool_facts_at(cb))
+        arm = cfg.reachable(g, cb) | {b_ for b_ in range(len(g.blocks)) if cb in cfg.reachable(g, b_) and any(tr == ("==", 1) for (e, tr, gg) in Sg.bool_facts_at(b_))}
+        zero = any(st["rhs"]["rv"] == "use" and st["rhs"]["ops"][0].get("k") == "const" and st["rhs"]["ops"][0].get("int") == 0 and st["lhs"]["p"]
+                   for b_ in arm if not g.blocks[b_]["cleanup"] for st in g.blocks[b_]["stmts"])
+        ok = one and zero
     ctx.check(ok, R, "decref clears the text when the count reaches zero", "", "StringPool::decref does not clear an entry's text exactly when its refcount reaches 0 (leftover text of deleted rows stays in the file)", g.loc(), fn=g.name)
 
 
@@ -584,6 +592,15 @@ def limit_w(ctx):
         Sy = Sym(prog, f)
         checks = [args for b, n, args, t in symcalls(prog, f, Sy) if n == "msi::internal::package::check_rows"]
         have = {x for x in ("make_columns_table", "make_tables_table", "make_validation_table") if any(x in a[0] for a in checks)}
+        if any(re.search(r"::next@Some\.0\.0\)?$", a[0]) for a in checks):
+            # the calls are issued from a loop over an array of (make_*_table(..), &rows) pairs (PRE-VALID decides that the loop covers the array)
+            for bl in f.blocks:
+                for st in bl["stmts"]:
+                    if not bl["cleanup"] and st["rhs"]["rv"] == "agg" and st["rhs"].get("array"):
+                        for o in st["rhs"]["ops"]:
+                            v = Sy.val(o)
+                            if v.startswith("tuple{"):
+                                have |= {x for x in ("make_columns_table", "make_tables_table", "make_validation_table") if x in v.split(",", 1)[0]}
         ctx.check(len(have) == 3, R, "widths disagree (%s / %s): rows are pre-validated against all catalog tables" % (sorted(tn.values()), sorted(cn.values())), str(sorted(have)),
                   "catalog widths for table names %s and column names %s disagree and create_table does not pre-validate against all catalog tables: a name between the "
                   "narrowest and the widest width is refused only after part of the catalog was written" % (tn, cn), f.loc(), fn=f.name, key=R + "|prevalidate")
